@@ -192,7 +192,7 @@ def run_check(prop, tier='quick', seed=0, strict=False, procs=None):
                 violations.append(handle_refuted(prop, r, o, fam_by_name[r['family']]))
             else:
                 fam_ = fam_by_name[r['family']]
-                if o.get('inputs') is not None and r['function'] in fam_.replay:
+                if r['function'] in fam_.replay:
                     # candidate counter-model (quantifier-free part only): believed only if it replays
                     v = handle_refuted(prop, r, o, fam_)
                     if v.get('reproduced'):
